@@ -9,6 +9,9 @@ pub mod keyenc_gen;
 pub mod keyenc_glue;
 pub mod keyenc_val;
 pub mod simd;
+pub mod sql_join;
+pub mod sql_join_op;
+pub mod sql_subq;
 
 pub fn run(engine: &str, ctx: &Ctx) -> Report {
     match engine {
@@ -19,6 +22,8 @@ pub fn run(engine: &str, ctx: &Ctx) -> Report {
         "pagelocks" => pagelocks::run(ctx),
         "keyenc" => keyenc::run(ctx),
         "simd" => simd::run(ctx),
+        "sql_join" => sql_join::run(ctx),
+        "sql_subq" => sql_subq::run(ctx),
         _ => {
             eprintln!("unknown engine {engine}");
             std::process::exit(2);
